@@ -444,7 +444,7 @@ func genStructureBomb(objPad, xrefPad int) []byte {
 	data = append(data, be(2, 1, 0)...)
 	data = append(data, be(2, 1, 1)...)
 	data = append(data, be(2, 1, 2)...)
-	data = append(data, make([]byte, xrefPad)...)
+	data = append(data, make([]byte, xrefPad/7*7)...) // whole (free) entries beyond /Size: ignored by the reader
 	zx := flate(data)
 	fmt.Fprintf(&w, "2 0 obj\n<</Type/XRef/Size 6/W[1 4 2]/Root 3 0 R/Length %d/Filter/FlateDecode>>\nstream\n", len(zx))
 	w.Write(zx)
@@ -503,11 +503,14 @@ func structureBombs(r *vh.Run) {
 			switch {
 			case rep.Panic != "":
 				r.OracleFail("panic:structure-bomb", in, rep.Panic)
+			case decoded > lim && rep.Err == "" && bm.name == "xrefstm":
+				// known defect: read.go xRefStreamDict decodes with saveDecodedStreamContent(nil, ...) -> default limit
+				r.OracleFail("xrefstm-decode-ignores-configured-limit", in, fmt.Sprintf("read succeeded although the xref stream decodes to %d bytes under MaxDecodeBytes = %d (%d bytes allocated): xRefStreamDict calls saveDecodedStreamContent(nil, ...), decodeLimit(nil) is the 512 MiB default", decoded, lim, rep.TotalAlloc))
 			case decoded > lim && rep.Err == "":
 				r.OracleFail(bm.name+"-bomb-not-rejected", in, fmt.Sprintf("read succeeded although the %s stream decodes to %d bytes under MaxDecodeBytes = %d", bm.name, decoded, lim))
 			case decoded > lim && !rep.LimitErr:
 				r.OracleFail(bm.name+"-bomb-wrong-error", in, rep.Err)
-			case decoded > 8*lim && int64(rep.TotalAlloc) >= decoded:
+			case decoded >= 4<<20 && decoded > 8*lim && int64(rep.TotalAlloc) >= decoded:
 				r.OracleFail(bm.name+"-bomb-allocates", in, fmt.Sprintf("rejected, but %d bytes were allocated (bomb %d, limit %d)", rep.TotalAlloc, decoded, lim))
 			case decoded <= lim/2 && rep.Err != "":
 				r.OracleFail(bm.name+"-rejected-below-limit", in, rep.Err)
